@@ -4,6 +4,7 @@ import vcheck
 PROP = "C03"
 
 TRUSTED = [
+    "go2coq translator (harness/cmd/go2coq, semantics coq/lib/GoSem.v): props/C03/coq/Gen.v is regenerated from the Go source of lids.Table.GetAdjustedMinTID/GetChunksCount/GetFirstBlockIndexForTID/GetLastBlockIndexForTID/HasTIDInPrevBlock/HasTIDInNextBlock/GetChunkIndex, lids.IteratorAsc.narrowLIDsRange, lids.IteratorDesc.narrowLIDsRange, token.TableEntry.getIndexInTokensBlock/getLastTID/checkTIDInBlock on every run (subset as in C14 plus: slices of bool, nil as the empty slice, function literals as `fun x => <monadic body>`, monadic externs); logger.Panic = panic (its arguments are not evaluated). extern (props/C03/coq/GenPrelude.v, hand-written): sort.Search -> sort_Search, the binary search loop of the Go standard library with the midpoint (i+j)/2 (exact for i <= j < 2^63), 65 rounds of fuel (theorem C03_gen_sort_Search_adequate: equal to the model's sort.Search, never OutOfFuel), a panic of the predicate propagates. Validated on every run by the gen-* correspondence classes (real function vs generated definition on boundary and random arguments)",
     "Coq 8.16.1 kernel (coqc), vm_compute for case evaluation; no native_compute",
     "hand-written model props/C03/coq/Model.v of Chunks.Pack/unpack (on varint values; on BYTES in ModelBytes.v), getLIDsBlockGenerator, "
     "lids.Table, IteratorAsc/IteratorDesc, sort.Search, the registry ext words, getTokensBlocksGenerator, "
@@ -55,4 +56,4 @@ def harness_args(tier, seed, outdir):
 
 
 def main(argv):
-    return vcheck.standard_check(PROP, argv, harness_args, TRUSTED, ASSUME, RULE, coqchk=True)
+    return vcheck.standard_check(PROP, argv, harness_args, TRUSTED, ASSUME, RULE, coqchk=True, gen=True)
